@@ -28,6 +28,8 @@ type establishLinkHandler struct {
 	valCount int
 	// rigidRef is the non-weak reference
 	rigidRef directive.Reference
+	// disposed is set when the directive instance was disposed
+	disposed bool
 }
 
 // newEstablishLinkHandler constructs a new establishLinkHandler
@@ -63,7 +65,11 @@ func (e *establishLinkHandler) HandleValueAdded(inst directive.Instance, val dir
 			Debug("starting peer hold-open tracking")
 		go func() {
 			e.mtx.Lock()
-			e.rigidRef = e.di.AddReference(nil, false)
+			// re-check: the links may be gone, or another add may have
+			// acquired the reference, by the time this runs.
+			if !e.disposed && e.valCount != 0 && e.rigidRef == nil {
+				e.rigidRef = e.di.AddReference(nil, false)
+			}
 			e.mtx.Unlock()
 		}()
 	}
@@ -86,6 +92,7 @@ func (e *establishLinkHandler) HandleValueRemoved(inst directive.Instance, val d
 // This will occur if Close() is called on the directive instance.
 func (e *establishLinkHandler) HandleInstanceDisposed(inst directive.Instance) {
 	e.mtx.Lock()
+	e.disposed = true
 
 	eref := e.ref
 	if eref == nil {
